@@ -2,6 +2,8 @@ import TenpyModel.C10.AlgProofs
 import TenpyModel.C10.TermsProofs
 import TenpyModel.C10.GraphProofs
 import TenpyModel.C10.BondProofs
+import TenpyModel.C10.BuildProofs
+import TenpyModel.C10.HcProofs
 import TenpyModel.Ops.Model
 import TenpyModel.Ops.Bond
 /-!
@@ -62,26 +64,24 @@ theorem C10_terms_termlist_coupling {α : Type} [AddCommMonoid α] (L : Nat)
   rw [hL] at this
   exact this.trans hden
 
-/- **MPO graph = sum of terms**, full statement (for the imperative model of `MPOGraph.from_terms`):
+/- **MPO graph = sum of terms.**  Proved below for onsite and two-site coupling terms on a finite chain,
+for the imperative model of `MPOGraph.from_terms` (`C10_graph_paths`) via its closed form
+(`C10_graph_paths_closed_form`).  Not proved: the same statement for `MultiCouplingTerms` (tries built from the
+left and from the right, connected at `switchLR`) and `ExponentiallyDecayingTerms` (a weighted loop
+`label → label`), full statement
 
-    theorem C10_graph_paths … :
-      Sym.Equiv (denoteGraph (Graph.fromTerms L false [.onsite ot, .coupling ct])) (Σ onsite calls ++ Σ coupling calls)
+    Sym.Equiv (denoteGraph (Graph.fromTerms L false [.onsite ot, .multi mt, .expdecay e]))
+              (STermList.denote L (ot.toTermListS ++ mt.toTermListS ++ e.toTermListFinite (fun _ => false)))
 
-What is proved below is this statement for the *closed form* `specLayers ot ct L` of the edge lists
-(`Ops/GraphSpec.lean`: per block `(i, op_i, op_str)` one opening edge, one string edge per site up to the
-largest `j`, one closing edge per entry; identity edges) — the part that carries the content: paths
-through states shared by all couplings with the same `(i, op_i, op_str)` enumerate every coupling exactly
-once with its strength.  Missing: the lemma that the layers built imperatively (`Graph.add` with
-`skip_existing`, `has_edge` in `add_string_left_to_right`, `add_missing_IdL_IdR`) are a permutation of
-`specLayers`; this is compared on every generated case by the driver (`spec_ok`), and the imperative
-edge lists are compared exactly with those of the implementation.  Multi-site couplings and
-exponentially decaying terms: denotation of the model graph vs the model term lists is compared on every
-case (`paths_ok`), no theorem yet. -/
+What is missing: the suffix-sum invariants for the nested `('left', …)` / `('right', …)` keys and for the
+geometric loop.  The driver evaluates both sides of exactly this equation on every generated case
+(`paths_ok`), also for infinite unit cells unrolled over a window, and the edge lists are compared exactly
+with those of the implementation. -/
 
 /-- **MPO graph paths (closed form).**  For every sequence of `add_onsite_term` calls (`i < L`) and
 `add_coupling_term` calls (`0 ≤ i < j < L`): the Σ over `IdL → IdR` paths of (product of strengths)·(operator
 string) of the MPO graph of the two containers is the sum of all added terms. -/
-theorem C10_graph_paths_partial {α : Type} [Semiring α] (L : Nat)
+theorem C10_graph_paths_closed_form {α : Type} [Semiring α] (L : Nat)
     (ocalls : List (α × Nat × String)) (ccalls : List (α × Int × Int × String × String × String))
     (ho : ∀ c ∈ ocalls, c.2.1 < L) (hc : ∀ c ∈ ccalls, 0 ≤ c.2.1 ∧ c.2.1 < c.2.2.1 ∧ c.2.2.1 < (L : Int)) :
     Sym.Equiv
@@ -96,6 +96,27 @@ theorem C10_graph_paths_partial {α : Type} [Semiring α] (L : Nat)
   have hwfp := coupling_build_WFP (fun i j => 0 ≤ i ∧ i < j ∧ j < (L : Int)) L ccalls hc
   have hyp := graphHyp_of_WFP _ _ L (hwf.len.trans hL) hwfp
   exact (spec_denote _ _ L hL hcL hyp).trans (Sym.Equiv.append hden hcden)
+
+/-- **MPO graph paths.**  For every sequence of `add_onsite_term` calls (`i < L`) and `add_coupling_term`
+calls (`0 ≤ i < j < L`) on a finite chain, the graph built by `MPOGraph.from_terms((onsite, coupling))` —
+`add` with `skip_existing`, `add_string_left_to_right` with its `has_edge` test, closing edges,
+`add_missing_IdL_IdR` — denotes (Σ over `IdL → IdR` paths of product of strengths · operator string) the sum
+of all added terms: every coupling exactly once although all couplings with equal `(i, op_i, op_str)` share
+their opening and string edges. -/
+theorem C10_graph_paths {α : Type} [Semiring α] [Inhabited α] (L : Nat)
+    (ocalls : List (α × Nat × String)) (ccalls : List (α × Int × Int × String × String × String))
+    (ho : ∀ c ∈ ocalls, c.2.1 < L) (hc : ∀ c ∈ ccalls, 0 ≤ c.2.1 ∧ c.2.1 < c.2.2.1 ∧ c.2.2.1 < (L : Int)) :
+    Sym.Equiv
+      (denoteGraph (Graph.fromTerms L false
+        [.onsite (ocalls.foldl (fun ot c => ot.add c.1 c.2.1 c.2.2) (OnsiteTerms.empty L)),
+         .coupling (ccalls.foldl (fun ct c => ct.add c.1 c.2.1 c.2.2.1 c.2.2.2.1 c.2.2.2.2.1 c.2.2.2.2.2)
+            (CouplingTerms.empty L))]))
+      (ocalls.map (fun c => (onsiteStr L c.2.1 c.2.2, c.1)) ++
+       ccalls.map (fun c => (couplingStr L c.2.1.toNat c.2.2.1.toNat c.2.2.2.1 c.2.2.2.2.2 c.2.2.2.2.1, c.1))) := by
+  obtain ⟨hwf, hL, _⟩ := OnsiteTerms.build_denote L ocalls ho
+  have hwfp := coupling_build_WFP (fun i j => 0 ≤ i ∧ i < j ∧ j < (L : Int)) L ccalls hc
+  exact (denoteGraph_fromTerms_equiv _ _ L (hwf.len.trans hL) hwfp).trans
+    (C10_graph_paths_closed_form L ocalls ccalls ho hc)
 
 /-- **Bond form.**  For every sequence of `add_onsite_term` calls (`i < L`) and nearest-neighbour
 `add_coupling_term` calls (`0 ≤ i`, `j = i + 1 < L`) on a finite chain of `L ≥ 2` sites:
@@ -144,6 +165,15 @@ theorem C10_plus_hc {α : Type} [CommSemiring α] (hc : String → String) (cj :
       (A ++ B ++ Sym.dagger hc cj B) :=
   explicit_eq_implicit hc cj half hhalf hcjh A B hA
 
+/-- **`plus_hc=True`** (without `explicit_plus_hc`) of `add_coupling_term`: the container gains the term and
+its Hermitian conjugate `conj(strength) · hc(op_i) ⊗ hc(op_str) ⊗ … ⊗ hc(op_j)` on the same sites. -/
+theorem C10_plus_hc_coupling_term {α : Type} [CommSemiring α] (hc : String → String) (cj : α → α)
+    (hid : hc "Id" = "Id") (ct : CouplingTerms α) (s : α) (i j : Int) (opi opj str : String) :
+    Sym.Equiv (((ct.add s i j opi opj str).add (cj s) i j (hc opi) (hc opj) (hc str)).denote)
+      (ct.denote ++ ([(couplingStr ct.L i.toNat j.toNat opi str opj, s)]
+        ++ Sym.dagger hc cj [(couplingStr ct.L i.toNat j.toNat opi str opj, s)])) :=
+  coupling_add_plus_hc hc cj hid ct s i j opi opj str
+
 /-- the prologue shared by all adders of `CouplingModel` implements exactly that bookkeeping -/
 theorem C10_plus_hc_prologue {α : Type} [Mul α] (m : Model α) (half : α) (ph : Bool) (s : α) :
     m.prologue half ph s =
@@ -177,11 +207,11 @@ example :
       = some [[], [(["A", "B"], 0 + 2), (["Id", "Z"], 1 / 2 * (0 + 4))], [(["Z", "Id"], 1 / 2 * (0 + 4))]] := by
   decide +kernel
 
-/-- … and the imperative model of `MPOGraph.from_terms` builds the same edge lists up to order -/
+/-- … and the imperative model of `MPOGraph.from_terms` has the same three paths -/
 example :
     let ot := (OnsiteTerms.empty 3 : OnsiteTerms Int).add 7 1 "Z"
     let ct := ((CouplingTerms.empty 3 : CouplingTerms Int).add 2 0 1 "A" "B" "S").add 3 0 2 "A" "C" "S"
-    ((Graph.fromTerms 3 false [.onsite ot, .coupling ct]).layers.map (·.length))
-      = (specLayers ot ct 3).map (·.length) := by decide
+    canon 0 (denoteGraph (Graph.fromTerms 3 false [.onsite ot, .coupling ct]))
+      = [([(0, "A"), (1, "B")], 2), ([(0, "A"), (1, "S"), (2, "C")], 3), ([(1, "Z")], 7)] := by decide
 
 end examples
